@@ -243,7 +243,7 @@ fn run_all(ctx: &mut Ctx) {
             let shapes: &[&str] = if tier == Tier::Thorough || ["add", "div", "mixed", "andand", "neg"].contains(&op.name) { SHAPES } else { &SHAPES[..1] };
             for shape in shapes {
                 let exhaustive = tier == Tier::Thorough && t.bits == 8 && *shape == "direct" && ["add", "sub", "mul", "div", "rem", "neg"].contains(&op.name);
-                let dom: Vec<BigInt> = if exhaustive { t.all() } else if tier == Tier::Quick { small_boundary(t) } else { t.boundary() };
+                let dom: Vec<BigInt> = if exhaustive { t.all() } else if tier == Tier::Quick && t.bits > 8 { small_boundary(t) } else { t.boundary() };
                 let mut insts = vec![];
                 if op.unary {
                     for a in &dom {
@@ -281,7 +281,7 @@ fn small_boundary(t: &Ty) -> Vec<BigInt> {
 pub static C07: CheckDef = CheckDef {
     id: "C07",
     level: "exploration",
-    rule: "Const-evaluable expression alphabet over integer types (quick: u8,i8,u32,u128,i128; thorough: all ten): + - * / % & | ^ unary- < <= == != , a mixed expression, short-circuit && / || with a dividing right operand, into felt252; each reaching the evaluator through 6 shapes (direct const, via const struct member, via const fn, via nested const fn, via match on a tuple, via a block with lets), consts referring to consts. Operands: the full cross product of {MIN,MIN+1,-1,0,1,2,3,MAX-1,MAX} (thorough: the C06 boundary sets, and ALL 65 536 pairs for 8-bit + - * / % neg). For each instance three twins in one crate: `const C: R = e[A,B]; fn k()->R{C}`, `fn fold()->R{ let a=A; let b=B; e[a,b] }` compiled with const folding on AND with skip_const_folding, `fn rt(a,b)->R{ e[a,b] }` run with the same operands. Oracle: the const item carries an evaluation-failure diagnostic (E2128/E2130/E2131/E2008) iff rt panics; otherwise k() == rt(A,B); both fold twins == rt (value or panic data). E2127 (unsupported in const context) is counted, not judged. distinct_nontrivial = distinct (type, op, shape, operands).",
+    rule: "Const-evaluable expression alphabet over integer types (quick: u8,i8,u32,u128,i128; thorough: all ten): + - * / % & | ^ unary- < <= == != , a mixed expression, short-circuit && / || with a dividing right operand, into felt252; each reaching the evaluator through 6 shapes (direct const, via const struct member, via const fn, via nested const fn, via match on a tuple, via a block with lets), consts referring to consts. Operands: the full cross product of {MIN,MIN+1,-1,0,1,2,3,MAX-1,MAX} (8-bit types and thorough: the C06 boundary sets incl. +-2^k+-1, and ALL 65 536 pairs for 8-bit + - * / % neg). For each instance three twins in one crate: `const C: R = e[A,B]; fn k()->R{C}`, `fn fold()->R{ let a=A; let b=B; e[a,b] }` compiled with const folding on AND with skip_const_folding, `fn rt(a,b)->R{ e[a,b] }` run with the same operands. Oracle: the const item carries an evaluation-failure diagnostic (E2128/E2130/E2131/E2008) iff rt panics; otherwise k() == rt(A,B); both fold twins == rt (value or panic data). E2127 (unsupported in const context) is counted, not judged. distinct_nontrivial = distinct (type, op, shape, operands).",
     assumptions: &["diagnostics are attributed to const items by line number in the generated module", "rt runs under the default configuration with ample gas"],
     run: run_all,
     stack_mb: 16,
